@@ -1,4 +1,4 @@
-use crate::codec::{FramedIo, Message, ZmqFramedRead, ZmqFramedWrite};
+use crate::codec::{FramedIo, Message, TrySend, ZmqFramedRead, ZmqFramedWrite};
 use crate::fair_queue::QueueInner;
 use crate::util::PeerIdentity;
 use crate::{
@@ -7,10 +7,11 @@ use crate::{
 
 use async_trait::async_trait;
 use futures::channel::mpsc;
-use futures::SinkExt;
+use futures::{select, FutureExt, Sink, SinkExt, StreamExt};
 use parking_lot::Mutex;
 
 use std::collections::VecDeque;
+use std::pin::Pin;
 use std::sync::Arc;
 
 /// The rotation of a round-robin sender: every registered peer exactly once.
@@ -79,6 +80,56 @@ impl Peer {
 
 /// Forgetting one connection of a peer, as opposed to `peer_disconnected`, which forgets
 /// whatever is registered under the identity.
+/// The write half of one subscriber of a PUB or XPUB socket. Publishing never waits: what the
+/// transport does not take at once stays buffered. A task of its own - woken by the transport,
+/// ended when the subscriber is forgotten - writes the rest out, so that a subscriber that was
+/// slow for a moment gets what was accepted for it without the publisher having to publish to
+/// it again. The lock is only ever held within one poll.
+pub(crate) struct SubscriberQueue {
+    queue: Arc<Mutex<Pin<Box<ZmqFramedWrite>>>>,
+    unflushed: mpsc::Sender<()>,
+}
+
+impl SubscriberQueue {
+    pub(crate) fn new(send_queue: ZmqFramedWrite) -> Self {
+        let queue = Arc::new(Mutex::new(Box::pin(send_queue)));
+        let (unflushed, mut kicked) = mpsc::channel(1);
+        let buffered = queue.clone();
+        crate::async_rt::task::spawn(async move {
+            // `None`: the subscriber is gone, whatever is still buffered goes with it
+            while kicked.next().await.is_some() {
+                loop {
+                    let mut flush =
+                        futures::future::poll_fn(|cx| buffered.lock().as_mut().poll_flush(cx))
+                            .fuse();
+                    select! {
+                        flushed = flush => {
+                            if flushed.is_err() {
+                                // the publisher's next write meets the error and forgets the peer
+                                return;
+                            }
+                            break;
+                        },
+                        // a publish in between took the transport's wake-up: start over
+                        again = kicked.next() => if again.is_none() {
+                            return;
+                        },
+                    }
+                }
+            }
+        });
+        Self { queue, unflushed }
+    }
+
+    pub(crate) fn try_send(&mut self, item: Message) -> ZmqResult<()> {
+        let sent = self.queue.lock().as_mut().try_send(item);
+        if !matches!(sent, Ok(true)) {
+            let _ = self.unflushed.try_send(());
+        }
+        sent.map(|_| ())
+    }
+}
+
 pub(crate) trait ForgetConn {
     fn forget_conn(&self, peer_id: &PeerIdentity, conn: u64);
 }
